@@ -414,6 +414,8 @@ class ODF2MoinMoin(object):
 
         i = 0
         for item in listElement.childNodes:
+            if item.nodeType != xml.dom.Node.ELEMENT_NODE:
+                continue
             buffer.append(" "*indent)
             i += 1
             if props.ordered:
@@ -423,7 +425,8 @@ class ODF2MoinMoin(object):
             else:
                 buffer.append(" * ")
             subitems = [el for el in item.childNodes
-                          if el.tagName in ["text:p", "text:h", "text:list"]]
+                          if el.nodeType == xml.dom.Node.ELEMENT_NODE and
+                             el.tagName in ["text:p", "text:h", "text:list"]]
             for subitem in subitems:
                 if subitem.tagName == "text:list":
                     buffer.append("\n")
@@ -444,12 +447,16 @@ class ODF2MoinMoin(object):
         buffer = []
 
         for item in tableElement.childNodes:
+            if item.nodeType != xml.dom.Node.ELEMENT_NODE:
+                continue
             self.lastsegment = item.tagName
-            if item.tagName in ("table:table-header-rows", "table:table-rows"):
+            if item.tagName in ("table:table-header-rows", "table:table-rows", "table:table-row-group"):
                 buffer.append(self.tableToString(item))
             if item.tagName == "table:table-row":
                 buffer.append("\n||")
                 for cell in item.childNodes:
+                    if cell.nodeType != xml.dom.Node.ELEMENT_NODE:
+                        continue
                     buffer.append(self.inline_markup(cell))
                     buffer.append("||")
                     self.lastsegment = cell.tagName
@@ -466,7 +473,8 @@ class ODF2MoinMoin(object):
         buffer = []
 
         paragraphs = [el for el in text.childNodes
-                      if el.tagName in ["draw:page", "draw:frame", "text:p", "text:h","text:section",
+                      if el.nodeType == xml.dom.Node.ELEMENT_NODE and
+                         el.tagName in ["draw:page", "draw:frame", "text:p", "text:h","text:section",
                                         "text:list", "table:table"]]
 
         for paragraph in paragraphs:
